@@ -149,7 +149,7 @@ def run(chk):
             try:
                 r = manipulate.xgrid_reshape(Operator(O.copy(), E.copy()), old, 3, targetgrid=tg, inputgrid=ig)
             except Exception as e:
-                chk.fail(f"{tag}.no_exception", f"{type(e).__name__}: {e}", fn=fng, replay=rp)
+                chk.raised(f"{tag}.no_exception", e, fn=fng, replay=rp)
                 continue
             want_o, want_e = O, E
             ok_build = True
